@@ -210,6 +210,8 @@ class BaseClientDataStore(ABC):
 
     def _cache_deserialized(self, key: str, obj: Any) -> None:
         """Add to LRU cache, evicting oldest if at capacity."""
+        if self.conf.local_cache_size <= 0:
+            return  # local cache disabled: nothing to evict, nothing to keep
         if len(self._deserialized_cache) >= self.conf.local_cache_size:
             self._deserialized_cache.popitem(last=False)
         self._deserialized_cache[key] = obj
